@@ -33,7 +33,7 @@ impl TopicName {
     pub fn try_parse(unparsed: &str) -> Option<Self> {
         // Check that the length of the input is at least as long as something that contains
         // a valid topic name.
-        if unparsed.len() <= PROJECT_PREFIX_LEN + TOPIC_PREFIX_LEN + 2 {
+        if unparsed.len() < PROJECT_PREFIX_LEN + TOPIC_PREFIX_LEN + 2 {
             return None;
         }
 
@@ -45,10 +45,21 @@ impl TopicName {
         // Extract the project ID.
         let project_id = unparsed.get(PROJECT_PREFIX_LEN..)?;
         let project_id = project_id.get(..project_id.find('/')?)?;
+        if project_id.is_empty() {
+            return None;
+        }
 
         // Extract the topic ID
         let start = PROJECT_PREFIX_LEN + project_id.len() + TOPIC_PREFIX_LEN;
-        let topic_id = unparsed.get(start..).map(|s| s.trim_matches('/'))?;
+
+        // The project ID must be followed by the literal segment.
+        if unparsed.get(PROJECT_PREFIX_LEN + project_id.len()..start)? != TOPIC_PREFIX {
+            return None;
+        }
+
+        // The ID is taken as it is (so that the canonical name parses back to the same
+        // name), and it must not be empty.
+        let topic_id = unparsed.get(start..).filter(|id| !id.is_empty())?;
 
         Some(TopicName {
             project_id: project_id.into(),
